@@ -98,7 +98,11 @@ NOT_COVERED = [
     "NumericalPropagator: its internal interpolating Ephem is the Speaker; sharpness there is not re-evaluated by the oracle (order, soundness, completeness, labels are)",
     "a caller that itself re-frames the yielded state objects in place between two steps of a plain iter() (not visibility) changes what frame=None listeners read: outside the model (the model's states keep their frame)",
 ]
-OPEN = []
+OPEN = [
+    "penumbra clause (entries / exits agree with the conical shadow within 0.5 s) is FALSE of the current code: LightListener uses sin(alpha) = (R_sun - R_body)/d for the penumbra cone too "
+    "(light_geometry states the predicate the code computes; kernel-checked counter-witness C10W.penumbra_half_angle_witness on the formulas translated from the source; "
+    "known finding C10-penumbra-half-angle, proposed_fixes/C10-penumbra-half-angle.diff). When /repo is fixed the witness stops checking and light_geometry has to be restated with the two half-angles.",
+]
 RULE = ("correspondence: random listener lists (1-6 listeners out of 14 kinds) x random sample sequences (1 us to 100 s spacing, regular / irregular / backward, roots of the "
         "polynomials on and off the samples) x 6 iteration modes (dates, range, Ephem dates/step/stored points) x listener history (fresh / reused / abandoned generator) "
         "x (one listener: handed over in a list / as a bare Listener object); "
